@@ -46,10 +46,11 @@ def gen_case(rnd, tier: str, i: Any) -> Dict[str, Any]:
     files = {}
     mirrored = False
     mirror = rnd.random() < 0.35
-    autograd = n_steps >= 1 and rnd.random() < 0.3        # an autograd thread whose operators are re-parented beneath the main thread's annotations
+    two_bwd = rnd.random() < 0.45            # two autograd threads: nothing is re-parented then
+    autograd = n_steps >= 1 and rnd.random() < 0.4        # an autograd thread whose operators are re-parented beneath the main thread's annotations
     for r in range(n_ranks):
         p = gen_sim.random_params(rnd, tier, rank=r, n_steps=n_steps, first_step=first_step, autograd=autograd, avoid_k1=True, repeat_names=True,
-                                  max_depth=rnd.choice([3, 5]), ops_per_step=rnd.choice([(3, 8), (6, 12), (6, 12)]), n_threads=2 if autograd else rnd.choice([1, 1, 2]),
+                                  max_depth=rnd.choice([3, 5]), ops_per_step=rnd.choice([(3, 8), (6, 12), (6, 12)]), n_threads=(3 if two_bwd else 2) if autograd else rnd.choice([1, 1, 2]), autograd_threads=2 if two_bwd else 1,
                                   p_sync=rnd.choice([0.0, 0.1]), p_event=0.0, p_leaf_children=rnd.choice([(0, 3), (1, 4), (2, 5)]), pre_ops=rnd.choice([1, 3]))
         p["ops_pool"] = pool
         if mirror:
